@@ -1,8 +1,12 @@
 #!/bin/bash
-# re-runs every confirmed seed against the check of its own property (final check versions), quick tier
+# re-runs every confirmed seed against the check of its own property (final check versions), quick tier,
+# plus the other checks listed for seeds whose own check is known to be silent
 cd /verif
+declare -A EXTRA=( [C01_a]="C04 C07" [C02_c]="C05" [C14_d]="C04" [C06_e]="C11" [C06_f]="C11" [C04_a]="C07" [C15_d]="C12" [C13_c]="C12" [C18_e]="C12" [C19_c]="C07" )
 for d in seeded/C??_?; do
   n=$(basename $d)
+  [ -n "$ONLY" ] && ! echo " $ONLY " | grep -q " $n " && continue
   pid=$(python3 -c "import json;print(json.load(open('$d/meta.json'))['property'])")
-  python3 tools/seed_vs_checks.py $n $pid
+  python3 tools/seed_vs_checks.py $n $pid ${EXTRA[$n]} 2>&1 | tail -3
 done
+echo RERUNDONE
